@@ -6,3 +6,6 @@ cd "$(dirname "$0")/engine"
 mkdir -p ../bin
 go build -o ../bin/vcheck .
 echo "vcheck built"
+# engine self-tests (interpreter, environment models, happens-before monitor)
+cd .. && ./bin/vcheck run SELF > .selftest.log 2>&1 || { echo "engine self-tests FAILED"; tail -20 .selftest.log; exit 1; }
+echo "engine self-tests passed"
